@@ -308,8 +308,12 @@ func rejectLoads(c *Ctx, fn *ssa.Function) []ssa.Value {
 }
 
 func flagFalseAt(c *Ctx, fn *ssa.Function, b *ssa.BasicBlock) bool {
+	return flagFalseH(c, fn, func(v ssa.Value, want bool) bool { return ir.HoldsAt(v, want, b) })
+}
+
+func flagFalseH(c *Ctx, fn *ssa.Function, holds func(ssa.Value, bool) bool) bool {
 	for _, l := range rejectLoads(c, fn) {
-		if ir.HoldsAt(l, false, b) {
+		if holds(l, false) {
 			return true
 		}
 	}
@@ -334,7 +338,7 @@ func mat3(c *Ctx) {
 		// the flag-true edge returns the vector unchanged
 		for _, l := range rejectLoads(c, fn) {
 			for _, e := range ir.EdgesWhere(fn, l, true) {
-				for r := range ir.Reach(e.To, nil, nil) {
+				for r := range ir.ReachVia(e.From, e.To, nil, nil) {
 					if ir.IsReturn(r) {
 						ret := r.Instrs[len(r.Instrs)-1].(*ssa.Return)
 						if _, isP := ret.Results[1].(*ssa.Parameter); !isP && e.To == r {
@@ -378,7 +382,7 @@ func mat3(c *Ctx) {
 			for _, l := range rejectLoads(c, fn) {
 				for _, e := range ir.EdgesWhere(fn, l, true) {
 					if e.To != acc {
-						for r := range ir.Reach(e.To, map[*ssa.BasicBlock]bool{acc: true}, nil) {
+						for r := range ir.ReachVia(e.From, e.To, map[*ssa.BasicBlock]bool{acc: true}, nil) {
 							if ir.IsReturn(r) {
 								ok, why = false, "after options ended a token can still be refused"
 							}
@@ -395,22 +399,22 @@ func mat3(c *Ctx) {
 				if !isC || v {
 					continue
 				}
-				if lenZeroAt(fn, r.Block()) {
+				if lenZeroH(fn, r.Holds) {
 					continue
 				}
-				okRefuse := flagFalseAt(c, fn, r.Block())
+				okRefuse := flagFalseH(c, fn, r.Holds)
 				hasPrefix, notDash := false, false
 				ir.Instrs(fn, func(in ssa.Instruction) {
 					switch x := in.(type) {
 					case *ssa.Call:
 						if f := ir.Static(x); f != nil && ir.IsStdFunc(f, "strings", "HasPrefix") {
-							if s, isS := ir.ConstString(x.Call.Args[1]); isS && s == "-" && ir.HoldsAt(x, true, r.Block()) {
+							if s, isS := ir.ConstString(x.Call.Args[1]); isS && s == "-" && r.Holds(x, true) {
 								hasPrefix = true
 							}
 						}
 					case *ssa.BinOp:
 						if s, isS := ir.ConstString(x.Y); isS && s == "-" {
-							if (x.Op == token.NEQ && ir.HoldsAt(x, true, r.Block())) || (x.Op == token.EQL && ir.HoldsAt(x, false, r.Block())) {
+							if (x.Op == token.NEQ && r.Holds(x, true)) || (x.Op == token.EQL && r.Holds(x, false)) {
 								notDash = true
 							}
 						}
@@ -445,6 +449,10 @@ func mat3(c *Ctx) {
 }
 
 func lenZeroAt(fn *ssa.Function, b *ssa.BasicBlock) bool {
+	return lenZeroH(fn, func(v ssa.Value, want bool) bool { return ir.HoldsAt(v, want, b) })
+}
+
+func lenZeroH(fn *ssa.Function, holds func(ssa.Value, bool) bool) bool {
 	found := false
 	ir.Instrs(fn, func(in ssa.Instruction) {
 		bo, ok := in.(*ssa.BinOp)
@@ -455,7 +463,7 @@ func lenZeroAt(fn *ssa.Function, b *ssa.BasicBlock) bool {
 			return
 		}
 		if lc, isCall := bo.X.(*ssa.Call); isCall {
-			if bi, isB := lc.Call.Value.(*ssa.Builtin); isB && bi.Name() == "len" && ir.HoldsAt(bo, true, b) {
+			if bi, isB := lc.Call.Value.(*ssa.Builtin); isB && bi.Name() == "len" && holds(bo, true) {
 				found = true
 			}
 		}
@@ -506,7 +514,7 @@ func mat4(c *Ctx) {
 		if v, isC := ir.ConstBool(verdict); isC && v {
 			if ex, isEx := vec.(*ssa.Extract); isEx {
 				if call, isCall := ex.Tuple.(*ssa.Call); isCall {
-					if m := extractOf(call, 0); m != nil && ir.HoldsAt(m, true, r.Block()) {
+					if m := extractOf(call, 0); m != nil && r.Holds(m, true) {
 						good = true
 					}
 				}
@@ -878,7 +886,7 @@ func mat7(c *Ctx) {
 						headers[h] = true
 					}
 				}
-				region := ir.Reach(e.To, headers, nil)
+				region := ir.ReachVia(e.From, e.To, headers, nil)
 				continues := headers[e.To]
 				for b := range region {
 					for _, sc := range b.Succs {
